@@ -446,9 +446,11 @@ fn schedules(idx: u64, rng: &mut Rng, mon: &mut Mon) {
                     *rj.lock().unwrap() += 1;
                 }
             })));
-            let (details, coll) = pool.install(|| (robot.collision_details(&q), robot.collides(&q)));
-            rs_opw_kinematics::verif_hooks::set_sink(None);
+            // the events of collision_details (all-collisions mode) are taken before collides() runs
+            let details = pool.install(|| robot.collision_details(&q));
             let evs = events.lock().unwrap().clone();
+            let coll = pool.install(|| robot.collides(&q));
+            rs_opw_kinematics::verif_hooks::set_sink(None);
             let set: BTreeSet<(usize, usize)> = details.iter().map(|(a, b)| key(*a, *b)).collect();
             mon.count("schedules.runs");
             mon.count_n("hook.tasks_observed", evs.len() as u64);
@@ -474,15 +476,8 @@ fn schedules(idx: u64, rng: &mut Rng, mon: &mut Mon) {
             // hook oracle: in all-collisions mode the first len(tasks) events belong to collision_details:
             // every relevant non-exempt pair evaluated exactly once there (exempt pairs may be skipped or evaluated-as-exempt)
             let mut seen: BTreeMap<(usize, usize), usize> = BTreeMap::new();
-            let mut n_details = 0;
             for e in &evs {
-                // events of collision_details come first (collides() runs afterwards in first-hit mode)
-                let k = key(e.0, e.1);
-                if n_details < evs.len() && seen.get(&k).copied().unwrap_or(0) >= 1 && relevant_non_exempt.contains_key(&k) && seen.len() >= relevant_non_exempt.len() {
-                    break;
-                }
-                *seen.entry(k).or_insert(0) += 1;
-                n_details += 1;
+                *seen.entry(key(e.0, e.1)).or_insert(0) += 1;
                 if e.2 <= NEVER_COLLIDES {
                     mon.count("hook.path.exempt");
                 } else if e.2 == 0.0 {
@@ -490,6 +485,10 @@ fn schedules(idx: u64, rng: &mut Rng, mon: &mut Mon) {
                 } else {
                     mon.count("hook.path.distance");
                 }
+            }
+            // exactly once each
+            if let Some((k, n)) = seen.iter().find(|(_, n)| **n > 1) {
+                mon.violation(&format!("hook:pair-evaluated-more-than-once:{}", category(k.0, k.1)), "a pair was evaluated more than once in one all-collisions query", detail(json!({"pair": [k.0, k.1], "times": n})));
             }
             let missing: Vec<_> = relevant_non_exempt.keys().filter(|k| !seen.contains_key(*k)).cloned().collect();
             let relevant_all: BTreeSet<(usize, usize)> = cell.relevant_pairs().into_iter().map(|(a, b)| key(a, b)).collect();
